@@ -137,6 +137,19 @@ fn build(c: &Value, setup: &Setup) -> Result<(Vec<u8>, SecureChannel), String> {
             "no-own-key" => receiver.set_private_key(None),
             _ => {}
         }
+        if shape == "pad-size" {
+            // hand-built plain text, then the real signature and encryption over it
+            use opcua::crypto::pkey::KeySize;
+            let two = enc_key.size() > 256;
+            let fill = geti(c, "keep") as usize;
+            let padlen = asym_padding(pol, &enc_key, fill, sig_len).len();
+            let hdr = 12 + 4 + f.uri.as_ref().map(|u| u.len()).unwrap_or(0) + 4 + f.cert.as_ref().map(|u| u.len()).unwrap_or(0)
+                + 4 + f.thumb.as_ref().map(|u| u.len()).unwrap_or(0);
+            let end = hdr + 8 + fill + padlen;
+            let size = pad_size(gets(c, "psz"), end, padlen - if two { 2 } else { 1 }, two)?;
+            body = vec![];
+            padding = Some(pad_region(fill + padlen, size, two));
+        }
         let padding = padding.unwrap_or_else(|| asym_padding(pol, &enc_key, body.len(), sig_len));
         let w = craft_asym(pol, b'F', CHANNEL_ID, &f, seq, req, &body, &padding, signer, sig_len, &enc_key)?;
         let hdr_len = 12 + 4 + f.uri.as_ref().map(|u| u.len()).unwrap_or(0) + 4 + f.cert.as_ref().map(|u| u.len()).unwrap_or(0)
@@ -195,6 +208,17 @@ fn build(c: &Value, setup: &Setup) -> Result<(Vec<u8>, SecureChannel), String> {
             padding = sym_padding(body.len(), sig);
             padding[0] ^= 0x55;
         }
+        "pad-size" => {
+            if !encrypt {
+                return Err("pad-size needs an encrypted chunk".into());
+            }
+            let fill = geti(c, "keep") as usize;
+            let padlen = sym_padding(fill, sig).len();
+            let end = 16 + 8 + fill + padlen;
+            let size = pad_size(gets(c, "psz"), end, padlen - 1, false)?;
+            body = vec![];
+            padding = pad_region(fill + padlen, size, false);
+        }
         "mac-foreign" => crafter = setup.foreign_sender("both"),
         "before-keys" => {
             let (role, ln, rn) = if setup.c2s {
@@ -236,8 +260,37 @@ fn build(c: &Value, setup: &Setup) -> Result<(Vec<u8>, SecureChannel), String> {
         }
         _ => w,
     };
-    let _ = encrypt;
     Ok((w, receiver))
+}
+
+/// the announced padding size of the boundary family "pad-size": `end` = bytes in front of the signature, `ordinary` = the
+/// size a well-formed chunk of this length has, `two` = two size bytes (receiver key above 2048 bits)
+fn pad_size(psz: &str, end: usize, ordinary: usize, two: bool) -> Result<usize, String> {
+    let max = if two { 65535 } else { 255 };
+    let v = match psz {
+        "zero" => 0,
+        "one" => 1,
+        "ordinary" => ordinary,
+        "end-2" => end - 2,
+        "end-1" => end - 1,
+        "end" => end,
+        "end+1" => end + 1,
+        "max" => max,
+        _ => return Err(format!("unknown padding size class {}", psz)),
+    };
+    if v > max {
+        return Err(format!("padding size {} does not fit {} size byte(s)", v, if two { 2 } else { 1 }));
+    }
+    Ok(v)
+}
+
+/// every byte between the sequence header and the signature = low byte of the size, the size byte(s) at the end
+fn pad_region(len: usize, size: usize, two: bool) -> Vec<u8> {
+    let mut v = vec![(size & 0xff) as u8; len];
+    if two && len >= 1 {
+        v[len - 1] = (size >> 8) as u8;
+    }
+    v
 }
 
 /// one receive: ("chunk" | "error" | "panic", status name or panic site)
